@@ -232,23 +232,27 @@ class SRC:
         calloutparsers.Xcallouts.Xcallouts module if it's there.
         (X = creator ID in lower case)
         """
-        try:
-            name = self.creatorID.lower() + "callouts"
-            calloutParserMod = "calloutparsers." + name + "." + name
-            if calloutParserMod in calloutParsers:
-                cls = calloutParsers[calloutParserMod]
-                if cls is None:
-                    # The module, which was previously checked, is not found.
-                    return
-            else:
+        name = self.creatorID.lower() + "callouts"
+        calloutParserMod = "calloutparsers." + name + "." + name
+        if calloutParserMod in calloutParsers:
+            cls = calloutParsers[calloutParserMod]
+        else:
+            try:
                 cls = importlib.import_module(calloutParserMod)
-                calloutParsers[calloutParserMod] = cls
+            except Exception:
+                cls = None
+            # Only a failed import marks the module as not found
+            calloutParsers[calloutParserMod] = cls
+        if cls is None:
+            # The module is not found.
+            return
 
+        try:
             desc = cls.getMaintProcDesc(procName)
             if desc:
                 out["Description"] = json.loads(desc)
-        except:
-            calloutParsers[calloutParserMod] = None
+        except Exception:
+            # A failing lookup only loses this description
             pass
 
     def getCallouts(self, out: OrderedDict, config: Config):
